@@ -39,8 +39,21 @@ unsafe fn set_sigpipe(mode: u64) -> libc::sighandler_t {
         1 => libc::SIG_DFL,
         _ => noop_handler as usize,
     };
+    // half of the "ignored" cases ignore it the other way a program can: sigaction() with SIG_IGN in sa_sigaction and
+    // SA_SIGINFO among the flags (the kernel treats it as a plain ignore, and exec preserves it)
+    if mode == 0 && ODD_IGNORE.fetch_add(1, std::sync::atomic::Ordering::SeqCst) % 2 == 1 {
+        let old = libc::signal(libc::SIGPIPE, libc::SIG_IGN);
+        let mut sa: libc::sigaction = std::mem::zeroed();
+        sa.sa_sigaction = libc::SIG_IGN;
+        sa.sa_flags = libc::SA_SIGINFO | libc::SA_RESTART;
+        libc::sigemptyset(&mut sa.sa_mask);
+        libc::sigaction(libc::SIGPIPE, &sa, std::ptr::null_mut());
+        return old;
+    }
     libc::signal(libc::SIGPIPE, h)
 }
+
+static ODD_IGNORE: std::sync::atomic::AtomicU64 = std::sync::atomic::AtomicU64::new(0);
 
 fn check_report(ctx: &mut Ctx, who: &str, class: &str, mask: &[i32], sigpipe_mode: u64, exe: &PathBuf) {
     match spawn::get_report(exe, 4000) {
